@@ -91,12 +91,14 @@ std::string run_mem(const Cmd& c, size_t a){
         return s;
     };
     unsigned long salt = 1;
+    std::array<long, NB> last; last.fill(1);
+    const std::array<bool, NB> is_scalar_block{{ std::is_same<typename Blocks::Width, TbfMemoryDim::Scalar>::value... }};
     while(a < c.size()){
         const std::string op = c.tok[a++];
         if(!out.empty()) out += " || ";
         if(op == "R"){
             std::array<long, NB> sizes; for(long k = 0 ; k < NB ; ++k) sizes[k] = c.L(a++);
-            blk->resetBlocksFromSizes(sizes);
+            blk->resetBlocksFromSizes(sizes); last = sizes;
             const long alloc = blk->getAllocatedMemorySizeInByte();
             out += "alloc=" + std::to_string(alloc) + " trailer=";
             for(long k = 0 ; k < 2*NB ; ++k){ long w; std::memcpy(&w, blk->getPtr() + alloc - 16*NB + 8*k, 8); out += (k ? "," : "") + std::to_string(w); }
@@ -104,6 +106,16 @@ std::string run_mem(const Cmd& c, size_t a){
         }
         else if(op == "M"){ std::unique_ptr<Mem> nb(new Mem(std::move(*blk))); blk = std::move(nb); out += "moved alloc=" + std::to_string(blk->getAllocatedMemorySizeInByte()); }
         else if(op == "A"){ std::unique_ptr<Mem> nb(new Mem()); *nb = std::move(*blk); blk = std::move(nb); out += "moved alloc=" + std::to_string(blk->getAllocatedMemorySizeInByte()); }
+        else if(op == "B" || op == "b"){
+            // move-assign into an object that already owns a buffer of another size (B: larger, b: smaller)
+            std::unique_ptr<Mem> nb(new Mem());
+            std::array<long, NB> other;
+            for(long k = 0 ; k < NB ; ++k) other[k] = (op == "B") ? last[k] * 3 + 40 : std::max(1L, last[k] / 3);
+            for(long k = 0 ; k < NB ; ++k) if(last[k] == 1 && other[k] != 1 && is_scalar_block[k]) other[k] = 1;
+            nb->resetBlocksFromSizes(other);
+            *nb = std::move(*blk); blk = std::move(nb);
+            out += "moved alloc=" + std::to_string(blk->getAllocatedMemorySizeInByte());
+        }
         else if(op == "V"){
             const long alloc = blk->getAllocatedMemorySizeInByte();
             std::vector<unsigned char> copy(blk->getPtr(), blk->getPtr() + alloc);
